@@ -121,7 +121,7 @@ def gen_spec(seed, profile="core", variant=None, templates=None):
     rng = random.Random(seed)
     variant = variant or rng.choice(("plain", "plain", "congested", "starved", "finite", "finite"))
     congested = variant == "congested"
-    template = rng.choice(templates or ("line", "line", "line", "diamond", "pack", "packunpack", "multisink", "fanin", "splitline"))
+    template = rng.choice([t for t in (templates or ()) if t != "twin"] or ("line", "line", "line", "diamond", "pack", "packunpack", "multisink", "fanin", "splitline", "mesh"))
     item_len = rng.choice((1, 1, 0.5))
     nodes, conns = [], []
 
@@ -141,109 +141,133 @@ def gen_spec(seed, profile="core", variant=None, templates=None):
             if ia["kind"] == "random":
                 ia["kind"] = "gen"
             ia["finite"] = rng.randint(5, 25)
-        nodes.append({"id": nid, "type": "source", "flow": ftype, "blocking": blocking, "ia": ia, "item_length": item_len,
+        nodes.append({"id": px + nid, "type": "source", "flow": ftype, "blocking": blocking, "ia": ia, "item_length": item_len,
                       "out_sel": None})
 
     def machine(nid):
-        nodes.append({"id": nid, "type": "machine", "wc": rng.choice((1, 1, 2, 3)), "delay": rnd_delay_desc(rng),
+        nodes.append({"id": px + nid, "type": "machine", "wc": rng.choice((1, 1, 2, 3)), "delay": rnd_delay_desc(rng),
                       "blocking": rng.random() < 0.6, "setup": rng.choice(SETUPS), "in_sel": None, "out_sel": None})
 
     def splitter(nid):
-        nodes.append({"id": nid, "type": "splitter", "delay": rnd_delay_desc(rng), "blocking": rng.random() < 0.6,
+        nodes.append({"id": px + nid, "type": "splitter", "delay": rnd_delay_desc(rng), "blocking": rng.random() < 0.6,
                       "setup": rng.choice(SETUPS), "in_sel": None, "out_sel": None})
 
     def combiner(nid, recipe):
-        nodes.append({"id": nid, "type": "combiner", "delay": rnd_delay_desc(rng), "blocking": rng.random() < 0.6,
+        nodes.append({"id": px + nid, "type": "combiner", "delay": rnd_delay_desc(rng), "blocking": rng.random() < 0.6,
                       "setup": rng.choice(SETUPS), "recipe": recipe, "out_sel": None})
 
     def sink(nid):
-        nodes.append({"id": nid, "type": "sink"})
+        nodes.append({"id": px + nid, "type": "sink"})
 
     def conn(a, b, k=1):
-        conns.append((a, b, k))
+        conns.append((px + a, px + b, k))
 
-    if template == "line":
-        ns = rng.choice((1, 1, 2))
-        nm = rng.choice((0, 1, 1, 2, 3))
-        for i in range(ns):
-            src(f"S{i}")
-        for j in range(nm):
-            machine(f"M{j}")
-        sink("K0")
-        first = "M0" if nm else "K0"
-        for i in range(ns):
-            conn(f"S{i}", first, rng.choice((1, 1, 2)) if first != "K0" or True else 1)
-        for j in range(nm - 1):
-            conn(f"M{j}", f"M{j+1}", rng.choice((1, 1, 2, 3)))
-        if nm:
-            conn(f"M{nm-1}", "K0", rng.choice((1, 1, 2)))
-    elif template == "splitline":
-        # empty pallets straight from a source into a splitter (it just forwards the empty pallet)
-        src("SP", "pallet")
-        splitter("P0")
-        conn("SP", "P0", rng.choice((1, 1, 2)))
-        if rng.random() < 0.6:
-            machine("M0")
-            conn("P0", "M0", rng.choice((1, 2)))
+    # "twin": two independently parameterised copies of the template in one environment (state that is wrongly
+    # shared between two instances of a component class only shows when two instances exist)
+    twin = (templates is not None and "twin" in templates) or rng.random() < 0.12
+    px = ""
+    for px in (("", "T_") if twin else ("",)):
+        if template == "line":
+            ns = rng.choice((1, 1, 2))
+            nm = rng.choice((0, 1, 1, 2, 3))
+            for i in range(ns):
+                src(f"S{i}")
+            for j in range(nm):
+                machine(f"M{j}")
             sink("K0")
-            conn("M0", "K0")
-        else:
-            sink("K0")
-            conn("P0", "K0", rng.choice((1, 2)))
-    elif template == "fanin":
-        for i in range(3):
-            src(f"S{i}")
-        machine("M0")
-        machine("M1")
-        sink("K0")
-        for i in range(3):
-            conn(f"S{i}", "M0")
-        conn("M0", "M1", rng.choice((1, 2)))
-        conn("M1", "K0")
-    elif template == "diamond":
-        src("S0")
-        for n_ in ("M0", "M1", "M2", "M3"):
-            machine(n_)
-        sink("K0")
-        conn("S0", "M0")
-        conn("M0", "M1")
-        conn("M0", "M2")
-        conn("M1", "M3")
-        conn("M2", "M3")
-        conn("M3", "K0")
-    elif template == "multisink":
-        src("S0")
-        machine("M0")
-        sink("K0")
-        sink("K1")
-        conn("S0", "M0", rng.choice((1, 2)))
-        conn("M0", "K0")
-        conn("M0", "K1")
-    else:  # pack / packunpack
-        recipe = rng.choice(([1, 1], [1, 2], [1, 3, 1], [1, 1, 2], [1, 2], [1, 0, 2], [1, 3, 0], [1, 1, 1, 1], [1, 2, 0, 1], [1, 0, 1, 2]))
-        src("SP", "pallet")
-        for i in range(1, len(recipe)):
-            src(f"SI{i}")
-        combiner("C0", recipe)
-        conn("SP", "C0")
-        for i in range(1, len(recipe)):
-            conn(f"SI{i}", "C0")
-        last = "C0"
-        if rng.random() < 0.4:
-            machine("M0")
-            conn(last, "M0")
-            last = "M0"
-        if template == "packunpack":
+            first = "M0" if nm else "K0"
+            for i in range(ns):
+                conn(f"S{i}", first, rng.choice((1, 1, 2)) if first != "K0" or True else 1)
+            for j in range(nm - 1):
+                conn(f"M{j}", f"M{j+1}", rng.choice((1, 1, 2, 3)))
+            if nm:
+                conn(f"M{nm-1}", "K0", rng.choice((1, 1, 2)))
+        elif template == "splitline":
+            # empty pallets straight from a source into a splitter (it just forwards the empty pallet)
+            src("SP", "pallet")
             splitter("P0")
-            conn(last, "P0")
-            last = "P0"
-            if rng.random() < 0.5:
-                machine("M9")
-                conn("P0", "M9")
-                sink("K1")
-                conn("M9", "K1")
-        sink("K0")
-        conn(last, "K0", rng.choice((1, 1, 2)))
+            conn("SP", "P0", rng.choice((1, 1, 2)))
+            if rng.random() < 0.6:
+                machine("M0")
+                conn("P0", "M0", rng.choice((1, 2)))
+                sink("K0")
+                conn("M0", "K0")
+            else:
+                sink("K0")
+                conn("P0", "K0", rng.choice((1, 2)))
+        elif template == "fanin":
+            for i in range(3):
+                src(f"S{i}")
+            machine("M0")
+            machine("M1")
+            sink("K0")
+            for i in range(3):
+                conn(f"S{i}", "M0")
+            conn("M0", "M1", rng.choice((1, 2)))
+            conn("M1", "K0")
+        elif template == "diamond":
+            src("S0")
+            for n_ in ("M0", "M1", "M2", "M3"):
+                machine(n_)
+            sink("K0")
+            conn("S0", "M0")
+            conn("M0", "M1")
+            conn("M0", "M2")
+            conn("M1", "M3")
+            conn("M2", "M3")
+            conn("M3", "K0")
+        elif template == "mesh":
+            # grid of machines, each feeding its right and its lower neighbour (constructs.mesh builds the same shape):
+            # nodes with two in-edges and two out-edges, several routes per item
+            rows, cols = rng.choice(((2, 2), (2, 3), (3, 2)))
+            src("S0")
+            for r_ in range(rows):
+                for c_ in range(cols):
+                    machine(f"G{r_}{c_}")
+            sink("K0")
+            for c_ in range(cols):
+                conn("S0", f"G0{c_}")
+            for r_ in range(rows):
+                for c_ in range(cols):
+                    if c_ + 1 < cols:
+                        conn(f"G{r_}{c_}", f"G{r_}{c_+1}")
+                    if r_ + 1 < rows:
+                        conn(f"G{r_}{c_}", f"G{r_+1}{c_}")
+            for c_ in range(cols):
+                conn(f"G{rows-1}{c_}", "K0")
+        elif template == "multisink":
+            src("S0")
+            machine("M0")
+            sink("K0")
+            sink("K1")
+            conn("S0", "M0", rng.choice((1, 2)))
+            conn("M0", "K0")
+            conn("M0", "K1")
+        else:  # pack / packunpack
+            recipe = rng.choice(([1, 1], [1, 2], [1, 3, 1], [1, 1, 2], [1, 2], [1, 0, 2], [1, 3, 0], [1, 1, 1, 1], [1, 2, 0, 1], [1, 0, 1, 2]))
+            src("SP", "pallet")
+            for i in range(1, len(recipe)):
+                src(f"SI{i}")
+            combiner("C0", recipe)
+            conn("SP", "C0")
+            for i in range(1, len(recipe)):
+                conn(f"SI{i}", "C0")
+            last = "C0"
+            if rng.random() < 0.4:
+                machine("M0")
+                conn(last, "M0")
+                last = "M0"
+            if template == "packunpack":
+                splitter("P0")
+                conn(last, "P0")
+                last = "P0"
+                if rng.random() < 0.5:
+                    machine("M9")
+                    conn("P0", "M9")
+                    sink("K1")
+                    conn("M9", "K1")
+            sink("K0")
+            conn(last, "K0", rng.choice((1, 1, 2)))
     # degrees
     byid = {n["id"]: n for n in nodes}
     outdeg = {n["id"]: 0 for n in nodes}
@@ -296,7 +320,7 @@ def gen_spec(seed, profile="core", variant=None, templates=None):
         T = rng.choice((300, 400.5))
     return {"seed": seed, "profile": profile, "variant": variant, "template": template, "nodes": nodes, "edges": edges,
             "construct_order": order, "connect_order": corder, "T": T, "random_seed": rng.randrange(10 ** 6), "item_length": item_len,
-            "inject": inject}
+            "inject": inject, "twin": twin}
 
 
 # ----------------------------------------------------------------------------- build
